@@ -10,6 +10,7 @@
 // serials, taken from ASan's malloc/free hooks inside the window of the library call), the
 // number of live container allocations and capacity() / the length of the free-item list.
 #include "vh.hpp"
+#include <errno.h>
 #include <nstd/Base.hpp>
 
 extern "C" int __sanitizer_install_malloc_and_free_hooks(void (*malloc_hook)(const volatile void*, size_t),
@@ -323,6 +324,9 @@ static long g_base[POOLMAP + 1];
 // places behind the hinted element's successor position the new element was linked (model section)
 static bool g_tie_set = false;
 static long g_tie = 0;
+// Array::remove(index), size <= index: the element the call took out, if any (do_remout)
+static bool g_out_set = false;
+static long g_out = 0;
 
 static void line(long c, const char* res)
 {
@@ -335,6 +339,7 @@ static void line(long c, const char* res)
   printf(" ; stored=%ld bad=%ld | live=%ld ev=%s nb=%d caps=", stored, g_bad, g_live, g_evlen ? g_ev : ".", g_nb);
   dump_caps();
   if(g_tie_set) printf(" tie=%ld", g_tie);
+  if(g_out_set) printf(" out=%ld", g_out);
   printf("\n");
 }
 
@@ -468,6 +473,41 @@ static bool do_remat(int x, long i)
   default: break;
   }
   g_win = 0;
+  return true;
+}
+
+// round 6 - Array::remove(usize index) with an index that is NOT in the array (size <= index, any usize): the
+// one removal by index / position that the containers accept although it names no element (remove(end()) of
+// the node containers and Array::remove(end()) dereference / destroy the end position: not driven).  What the
+// array contains afterwards is not C04's business; the harness reports WHICH element, if any, the call took
+// out (` out=<j>`, model section; the largest j that explains the contents) and the check hands that outcome to
+// model and spec.  The lifecycle counters (stored=, bad=, sanitizer) are judged as for every other call.
+enum { SNAP = 4096 };
+static int g_snap[SNAP];
+static bool do_remout(int x, const char* tok)
+{
+  if(kindv[x] != ARRAY || tok[0] < '0' || tok[0] > '9') return false;
+  char* endp = 0;
+  errno = 0;
+  unsigned long long idx = strtoull(tok, &endp, 10);
+  if(errno || *endp) return false;
+  TA& a = *AS(TA, x);
+  unsigned long long n = (unsigned long long)a.size();
+  if(idx < n) return false;
+  if(n <= SNAP) for(unsigned long long k = 0; k < n; ++k) g_snap[k] = ((V*)a)[k].peek();
+  g_win = 1;
+  a.remove((usize)idx);
+  g_win = 0;
+  unsigned long long m = (unsigned long long)a.size();
+  if(n && n <= SNAP && m == n - 1) {
+    // removed element j: before[0..j) = after[0..j) and before(j..n) = after[j..m)
+    for(long j = (long)n - 1; j >= 0; --j) {
+      bool fits = true;
+      for(unsigned long long k = 0; k < m && fits; ++k)
+        if(((V*)a)[k].peek() != g_snap[k < (unsigned long long)j ? k : k + 1]) fits = false;
+      if(fits) { g_out_set = true; g_out = j; break; }
+    }
+  }
   return true;
 }
 
@@ -630,7 +670,7 @@ static bool do_inshint(int x, Pos p, Arg ka, Arg va)
 
 static void op(long c, long, vh::Tok& t)
 {
-  g_evlen = 0; g_ev[0] = 0; g_tie_set = false;
+  g_evlen = 0; g_ev[0] = 0; g_tie_set = false; g_out_set = false;
   const char* o = t.v[0];
   long x = t.n > 1 ? atol(t.v[1]) : -1;
   bool did = false;
@@ -787,6 +827,8 @@ static void op(long c, long, vh::Tok& t)
       g_win = 0;
       did = true;
     }
+  } else if(!strcmp(o, "remout") && t.n == 3) {
+    if(livev(x)) did = do_remout((int)x, t.v[2]);
   } else if(!strcmp(o, "rematit") && t.n == 3) {
     if(livev(x)) did = do_rematit((int)x, atol(t.v[2]));
   } else if(!strcmp(o, "rempop") && t.n == 3) {
